@@ -1,6 +1,7 @@
 import TempestVerif.Drv.Util
 import TempestVerif.Model.Records
 import TempestVerif.Model.RecSM
+import TempestVerif.Model.RecSM2
 import TempestVerif.Model.LogLike
 import TempestVerif.Model.Boundary
 import TempestVerif.Gen.Tables
@@ -53,7 +54,7 @@ def runOps (ops : List (Op Nat)) : String :=
 
    c07sm.run hb=<0|1> lb=<0|1> sg=<0|1> per=<idx list> refl=<idx list> inf=<tags> d=<dim> tapes=<tape>;<tape>…
           [logw=<tok,…> posts=<trim>:<res>:<rb>;…]
-     tape  W:<tags>:<picks>                        warm-up: draws u(t) = (t+1/2)/2^20 in every coordinate
+     tape  W:<tags>/<tags>…:<picks>                warm-up: the successive batches of draws (redraw loop), u(t) = (t+1/2)/2^20 in every coordinate
            A:<idx>:<step>!<step>…                  annealing; step = <raw vectors>&<accept bits>; a vector = q_q_q
      posts <trim> / <res> = N or an index list, rb = 0|1
    → cur=U|X|L|B hist=U|X|L|B ret=B;B… mid=<cur after resampler.run>~<cur after mutator.run>;… [post=X|L|B|LW;…]
@@ -84,10 +85,10 @@ def parseStep? (s : String) : Option (Step (List Rat)) :=
     | _, _ => none
   | _ => none
 
-def parseTape? (d : Nat) (s : String) : Option (Tape (List Rat)) :=
+def parseTape? (d : Nat) (s : String) : Option (TapeR (List Rat)) :=
   match s.splitOn ":" with
-  | ["W", ts, pk] => match parseNatList? ts, parseNatList? pk with
-    | some ts, some pk => some ⟨true, ts.map (uOf d), pk, [], []⟩
+  | ["W", bs, pk] => match (bs.splitOn "/").mapM parseNatList?, parseNatList? pk with
+    | some bs, some pk => some ⟨true, bs.map fun ts => ts.map (uOf d), pk, [], []⟩
     | _, _ => none
   | ["A", ix, sts] => match parseNatList? ix, (if sts == "-" then some [] else (sts.splitOn "!").mapM parseStep?) with
     | some ix, some sts => some ⟨false, [], [], ix, sts⟩
@@ -126,12 +127,12 @@ def parsePost? (s : String) : Option (Option (List Nat) × Option (List Nat) × 
 def showPost (p : Post (List Rat) (Option Rat) Rat String) : String :=
   s!"{showRows showVec p.x}|{showRows showL p.l}|{showOpt (showRows showRat) p.b}|{showRows id p.lw}"
 
-def smRun (cfg : Cfg) (per refl : List Nat) (inf : List Nat) (tapes : List (Tape (List Rat)))
+def smRun (cfg : Cfg) (per refl : List Nat) (inf : List Nat) (tapes : List (TapeR (List Rat)))
     (logw : List String) (posts : List (Option (List Nat) × Option (List Nat) × Bool)) : String :=
   let fold := Model.Boundary.apply (α := Rat) per refl
   let chk := Model.Boundary.checkBounds (α := Rat) per refl
   let isInf : Option Rat → Bool := Option.isNone
-  let rec go (s : SmSt) (k : Nat) (rets : List String) (mids : List String) : List (Tape (List Rat)) → String
+  let rec go (s : SmSt) (k : Nat) (rets : List String) (mids : List String) : List (TapeR (List Rat)) → String
     | [] =>
       let ps := posts.map fun q => match posterior cfg logw q.1 q.2.1 q.2.2 s with
         | some p => showPost p
@@ -139,7 +140,7 @@ def smRun (cfg : Cfg) (per refl : List Nat) (inf : List Nat) (tapes : List (Tape
       let tail := if posts.isEmpty then "" else " post=" ++ ";".intercalate ps
       s!"cur={showCur s.cur} hist={showHist s.hist} ret={";".intercalate rets.reverse} mid={";".intercalate mids.reverse}{tail}"
     | t :: ts =>
-      match iterateStates cfg tT (tLk inf) isInf fold chk s t with
+      match iterateStatesR cfg tT (tLk inf) isInf fold chk s t with
       | some r => go r.2.2 (k + 1) (showOpt (showRows showRat) r.2.2.cur.b :: rets)
                     (s!"{showCur r.1.cur}~{showCur r.2.1.cur}" :: mids) ts
       | none => s!"error:{k}"
